@@ -7,7 +7,7 @@ from __future__ import annotations
 
 import numpy as np
 
-from harness.common import Violation, bl, listl, ql, run_main, setup_jax, zl
+from harness.common import Violation, bl, listl, ql, release_jit, run_main, setup_jax, zl
 
 jax = setup_jax(x64=True)
 import equinox as eqx  # noqa: E402
@@ -120,6 +120,7 @@ def eval_cases(ck, rng, n):
              "max_steps": max_steps, "num_episodes": nep, "seed": seed, "key_free": kf, "impl_value": float(v)}
         cases.append(lit); cj.append(j)
         ck.case_seen(("eval", i, mode), sample=None); ck.count("eval:" + j["api"])
+        release_jit(i, 25)
     ck.current_case = None
     return cases, cj
 
@@ -162,6 +163,7 @@ def learn_cases(ck, rng, n):
              "total_timesteps": total, "expected_iterations": iters, "alpha": alpha, "seed": seed, "impl_records[step,episode/return,episode/length]": recs}
         cases.append(lit); cj.append(j)
         ck.case_seen(("learn", i, N, T, iters) if iters >= 2 else None, sample=None); ck.count("learn_runs"); ck.count("log_records", len(recs))
+        release_jit(i, 10)
         if len(recs) != iters:
             ck.violations.append(Violation("impl-violates-property", "C19/learn/record-count", f"{len(recs)} log records for {iters} iterations", case=j))
     ck.current_case = None
@@ -286,6 +288,7 @@ def body(ck):
     for i in range(20 if quick else 150):
         lit, j, meta = gen_rollout_case(ck, rng, 500_000 + i)
         cases.append(lit); cj.append(j)
+        release_jit(i, 25)
     ck.current_case = None
     res = ck.run_coq_cases("C04Check", cases, funcs=("agree_cb", "holds_cb"), shard=10, preamble=PREAMBLE)
     if res is not None:
